@@ -28,13 +28,13 @@ NOSAN_CFLAGS := $(OPT) $(DEFS) $(INC) -fPIC -MMD -MP
 BLOCC_CPP := $(wildcard $(REPO)/blocc/*.cpp $(REPO)/blocc/member/*.cpp $(REPO)/blocc/operator/*.cpp $(REPO)/blocc/builtin/*.cpp)
 BLOCC_C := $(REPO)/blocc/lex._tokenizer.c $(REPO)/blocc/readstdin.c
 APPS_CPP := $(addprefix $(REPO)/apps/,main.cpp main_options.cpp cli_parser.cpp cli_msgdb.cpp read_file.cpp signalhandler.cpp)
-SIM_CPP := $(filter-out $(VERIF)/sim/seams/vfhost.cpp,$(wildcard $(VERIF)/sim/core/*.cpp $(VERIF)/sim/seams/*.cpp $(VERIF)/sim/gen/*.cpp $(VERIF)/sim/ref/*.cpp $(VERIF)/sim/oracle/*.cpp $(VERIF)/sim/props/*.cpp))
+SIM_CPP := $(filter-out $(VERIF)/sim/seams/vfhost.cpp $(VERIF)/sim/seams/atomicwrap.cpp,$(wildcard $(VERIF)/sim/core/*.cpp $(VERIF)/sim/seams/*.cpp $(VERIF)/sim/gen/*.cpp $(VERIF)/sim/ref/*.cpp $(VERIF)/sim/oracle/*.cpp $(VERIF)/sim/props/*.cpp))
 
 obj = $(patsubst %,$(B)/obj/%.o,$(subst /,_,$(1)))
 BLOCC_OBJ := $(foreach s,$(BLOCC_CPP) $(BLOCC_C),$(call obj,$(s)))
 APPS_OBJ := $(foreach s,$(APPS_CPP),$(call obj,$(s)))
 SIM_OBJ := $(foreach s,$(SIM_CPP),$(call obj,$(s)))
-NOSAN_OBJ := $(B)/obj/handoff.o $(B)/obj/vfhost.o
+NOSAN_OBJ := $(B)/obj/handoff.o $(B)/obj/vfhost.o $(B)/obj/atomicwrap.o
 
 MODS := csv file utf8 sqlite3
 MOD_SO := $(foreach m,$(MODS),$(B)/libbloc_$(m).so.$(LIBSOVERSION)) $(B)/libbloc_vf.so.$(LIBSOVERSION) $(B)/libbloc_vg.so.$(LIBSOVERSION)
@@ -65,7 +65,14 @@ $(B)/obj/handoff.o: $(VERIF)/sim/core/handoff.c | $(B)/obj/.dir
 $(B)/obj/vfhost.o: $(VERIF)/sim/seams/vfhost.cpp | $(B)/obj/.dir
 	@$(CXX) $(NOSAN_CXXFLAGS) -c $< -o $@
 
+$(B)/obj/atomicwrap.o: $(VERIF)/sim/seams/atomicwrap.cpp | $(B)/obj/.dir
+	@$(CXX) $(NOSAN_CXXFLAGS) $(if $(filter tsan,$(F)),-DSIM_ATOMIC_WRAPS,) -c $< -o $@
+
 WRAPS := -Wl,--wrap=select -Wl,--wrap=dlopen
+# tsan flavour: the 32-bit atomic entry points of the ThreadSanitizer runtime are wrapped (sim/seams/atomicwrap.cpp)
+ifeq ($(F),tsan)
+WRAPS += $(foreach f,load store fetch_add fetch_sub exchange compare_exchange_strong compare_exchange_weak,-Wl,--wrap=__tsan_atomic32_$(f))
+endif
 $(B)/blocsim: $(BLOCC_OBJ) $(APPS_OBJ) $(SIM_OBJ) $(NOSAN_OBJ)
 	@echo "  LINK $@"
 	@$(CXX) $(SAN) -rdynamic $(WRAPS) -Wl,-rpath,'$$ORIGIN' -o $@ $^ -ldl -lm -lpthread -lsqlite3
